@@ -54,5 +54,4 @@ AttemptBound == err # "AttemptBound"
 NoDnsLeak == err # "NoDnsLeak"
 OnlyResolvedSuffixed == err # "OnlyResolvedSuffixed"
 Progress == Mark(l)
-AcceptedAll == Accepted /\ (open = FALSE \/ PrintT(<<"UNMATCHED", ToJson([line |-> NRec, rec |-> Rec[NRec]])>>))
 ====
